@@ -655,7 +655,7 @@ func c07rGen(rng *rand.Rand, tier string) []core.Spec {
 }
 
 func regReader(id string, rule string, gen func(*rand.Rand, string) []core.Spec, exhaustive func(string) bool) {
-	core.Register(&core.Prop{ID: id, Rule: rule, Gen: gen, Exec: readerExec, Decode: decodeReaderSpec, Shrink: shrinkReader, Clauses: readerClauses, Exhaustive: exhaustive})
+	core.Register(&core.Prop{ID: id, Rule: rule, Gen: withNilHandlers(gen), Exec: readerExec, Decode: decodeReaderSpec, Shrink: shrinkReader, Clauses: readerClauses, Exhaustive: exhaustive})
 }
 
 func init() {
